@@ -360,6 +360,7 @@ func c03prop(ev *evid.Rec) func(rt *rapid.T) {
 			}
 			hs = append(hs, h)
 		}
+		baitChat := rapid.IntRange(0, 2).Draw(rt, "inviteTheSentinelAndLeave") == 0
 		reached := 0
 		var panics int64
 		// watchdog in real time, started outside the bubble (inside it the clock is fake): a wedged server makes the
@@ -531,6 +532,27 @@ func c03prop(ev *evid.Rec) func(rt *rapid.T) {
 			for id := 1; id <= ngood+nhost+2; id++ {
 				if r := sentinel.Request(hlref.TranGetClientInfoText, fld(hlref.FUserID, hlref.BE16(id))); r == nil {
 					rt.Fatalf("sentinel got no reply to a get-client-info request about user %d while hostile connections were active (sentinel disconnected: %v): %s", id, sentinel.EOF(), desc)
+				}
+			}
+			// a well-behaved client reacts to what it is sent: a hostile user invites it to a private chat and leaves that chat
+			// at once; the invited client accepts.  Whatever the answer is, it arrives, and the client stays connected.
+			if baitChat {
+				for _, lv := range ls {
+					if !lv.in || lv.c.EOF() || lv.h.Mode == "transfer" {
+						continue
+					}
+					ir := lv.c.Request(hlref.TranInviteNewChat, fld(hlref.FUserID, hlref.BE16(1)))
+					cid, ok := ir.Get(hlref.FChatID)
+					if !okReply(ir) || !ok {
+						break
+					}
+					lv.c.Request(hlref.TranLeaveChat, fld(hlref.FChatID, cid))
+					settle(time.Second)
+					if r := sentinel.Request(hlref.TranJoinChat, fld(hlref.FChatID, cid)); r == nil || sentinel.EOF() {
+						rt.Fatalf("a hostile user invited the well-behaved client to a private chat and left it at once; the well-behaved client accepted the invitation and got no answer (disconnected: %v): %s", sentinel.EOF(), desc)
+					}
+					sentinel.Request(hlref.TranLeaveChat, fld(hlref.FChatID, cid))
+					break
 				}
 			}
 			for i, g := range good {
